@@ -113,19 +113,20 @@ Proof.
     assert (C * (2 * Z.abs rho) <= C * n) by (apply Z.mul_le_mono_nonneg_l; lia).
     assert (C * n < 2 ^ 53 * n) by (apply Z.mul_lt_mono_pos_r; lia). lia. }
   assert (HnV : c * m * G - n * G < n * V /\ n * V < c * m * G + n * G).
-  { assert (A1 : 2 * (n * V) <= 2 * (n * Q) + n * D) by nia.
-    assert (A2 : 2 * (n * Q) - n * D <= 2 * (n * V)) by nia.
+  { assert (A1 : n * (2 * V) <= n * (2 * Q + D)) by (apply Z.mul_le_mono_nonneg_l; unfold V; lia).
+    assert (A2 : n * (2 * Q - D) <= n * (2 * V)) by (apply Z.mul_le_mono_nonneg_l; unfold V; lia).
     assert (A3 : n * D <= n * 2 ^ 53) by (apply Z.mul_le_mono_nonneg_l; lia).
     assert (A4 : n * 2 ^ 53 <= n * G) by (apply Z.mul_le_mono_nonneg_l; lia).
-    rewrite HnQ in A1, A2. lia. }
+    lia. }
   assert (HG0 : 0 < G) by lia.
   pose proof (Z.div_mod V G ltac:(lia)) as Hdm. pose proof (Z.mod_pos_bound V G HG0) as Hmod.
   set (x := V / G) in *.
   assert (B1 : n * (G * x) <= n * V) by (apply Z.mul_le_mono_nonneg_l; lia).
-  assert (B2 : n * V < n * (G * x) + n * G) by nia.
+  assert (B2 : n * V < n * (G * x) + n * G).
+  { assert (n * V < n * (G * x + G)) by (apply Z.mul_lt_mono_pos_l; lia). lia. }
   split.
-  - assert (G * (c * m - 2 * n) < G * (n * x)) by nia. apply (Z.mul_lt_mono_pos_l G); lia.
-  - assert (G * (n * x) < G * (c * m + n)) by nia. apply (Z.mul_lt_mono_pos_l G); lia.
+  - apply (Z.mul_lt_mono_pos_l G); [lia|]. lia.
+  - apply (Z.mul_lt_mono_pos_l G); [lia|]. lia.
 Qed.
 
 (* the same in terms of samples_incr and the floor of the exact share: off by at most one *)
@@ -136,7 +137,7 @@ Theorem share_bound : forall (n m : Z) (c : N), 1 <= m <= n -> (c < 2 ^ 52)%N ->
 Proof.
   intros n m c Hmn Hc. cbv zeta.
   destruct (N.eq_dec c 0) as [->|Hc0].
-  { rewrite samples_incr_zero. cbn. rewrite Z.div_0_l by lia. lia. }
+  { rewrite samples_incr_zero. change (Z.of_N 0) with 0. rewrite Z.mul_0_l, Z.div_0_l by lia. lia. }
   pose proof (share_bound_core m n (Z.of_N c) Hmn ltac:(lia)) as [H1 H2]. cbv zeta in H1, H2.
   unfold samples_incr, f53_of_N, f53_of_rat.
   set (x := Z.of_N (f53_trunc (f53_mul (rne53 (Z.of_N c) 1) (rne53 m n)))) in *.
